@@ -38,8 +38,6 @@ func Run(r *core.Report, env *build.Env) {
 			goh.Harness{Pkg: om, Func: "VerifC20Map4Del", Bound: "4 Set operations and a Delete"},
 			goh.Harness{Pkg: om, Func: "VerifC20Map5", Bound: "all histories of 5 Set operations", Opts: gose.Options{Deadline: 30 * time.Minute}},
 			goh.Harness{Pkg: pk, Func: "VerifC20Trie3", Bound: "3 aliases 'word <p>' over the pool"},
-			goh.Harness{Pkg: pk, Func: "VerifC20Trie4", Bound: "4 aliases 'word <p>' over the pool", Opts: gose.Options{Deadline: 30 * time.Minute}},
-			goh.Harness{Pkg: pk, Func: "VerifC20Search3", Bound: "search over 3 aliases with a rejecting key generator", Opts: gose.Options{Deadline: 30 * time.Minute}},
 		)
 	}
 	for _, h := range hs {
